@@ -187,6 +187,39 @@ func checkC09(c *Ctx) error {
 		if outA != outB {
 			c.Violate("split-changes-output", fmt.Sprintf("layout %v: output of the split form differs from the single-file form\n%s", lay.patterns, firstDiff(outA, outB)), files)
 		}
+		// (J) a fragment that is named by a pattern of its own arrives through a named pipe fed in pieces instead
+		wild := false
+		for _, p := range lay.patterns {
+			wild = wild || strings.ContainsAny(p, "*?[")
+		}
+		if i%3 == 2 && !wild {
+			for j, f := range lay.files {
+				at := -1
+				for pi, p := range lay.patterns {
+					if p == f {
+						at = pi
+					}
+				}
+				if at < 0 || j == 0 && len(lay.files) > 1 && i%2 == 0 {
+					continue
+				}
+				pats := append([]string{}, lay.patterns...)
+				pats[at] = fmt.Sprintf("pipes-%d/p.yaml", j)
+				_ = os.MkdirAll(filepath.Join(dir, filepath.Dir(pats[at])), 0o755)
+				pipe, err := work.FeedFifo(filepath.Join(dir, pats[at]), []byte(parts[j].YAML()))
+				if err != nil {
+					break
+				}
+				runJ, outJ := runBuild(c, dir, pats)
+				op, all := pipe.Stop()
+				c.Add("fragments_read_from_a_pipe", 1)
+				if runJ.Res.Exit != 0 || outJ != outB {
+					files["stdout-piped.txt"] = runJ.Res.Stdout
+					c.Violate("piped-fragment-changes-output", fmt.Sprintf("layout %v with %s delivered through a named pipe (opened and read completely: %v): exit %d, output equal to the one from regular files: %v\n%s", lay.patterns, f, op && all, runJ.Res.Exit, outJ == outB, firstDiff(outB, outJ)), files)
+				}
+				break
+			}
+		}
 		// (C) reference merge in expected order, as a single file
 		merged := ref.MergeAll(parts)
 		_ = work.WriteFile(filepath.Join(dir, "single-C.yaml"), []byte(merged.YAML()))
